@@ -15,7 +15,7 @@ func pktPayload(r *rec.Rec) (util.Message, error) {
 		return BuildPacket(s)
 	}
 	if r.Has("data") {
-		return util.NewBuffer(append([]byte(nil), r.Bytes("data")...)), nil
+		return util.NewBuffer(Own(r.Bytes("data"))), nil
 	}
 	return nil, nil
 }
@@ -23,7 +23,7 @@ func pktPayload(r *rec.Rec) (util.Message, error) {
 func ips(b []byte) []net.IP {
 	var out []net.IP
 	for i := 0; i+4 <= len(b); i += 4 {
-		out = append(out, net.IP(append([]byte(nil), b[i:i+4]...)))
+		out = append(out, net.IP(Own(b[i:i+4])))
 	}
 	return out
 }
@@ -32,11 +32,11 @@ func ips(b []byte) []net.IP {
 func BuildPacket(r *rec.Rec) (util.Message, error) {
 	switch r.K {
 	case "raw":
-		return util.NewBuffer(append([]byte(nil), r.Bytes("data")...)), nil
+		return util.NewBuffer(Own(r.Bytes("data"))), nil
 	case "ethernet":
 		e := protocol.NewEthernet()
-		e.HWDst = net.HardwareAddr(append([]byte(nil), r.Bytes("dst")...))
-		e.HWSrc = net.HardwareAddr(append([]byte(nil), r.Bytes("src")...))
+		e.HWDst = net.HardwareAddr(Own(r.Bytes("dst")))
+		e.HWSrc = net.HardwareAddr(Own(r.Bytes("src")))
 		if r.Bool("has_vlan") {
 			e.VLANID.PCP = r.U8("pcp")
 			e.VLANID.DEI = r.U8("dei")
@@ -65,10 +65,10 @@ func BuildPacket(r *rec.Rec) (util.Message, error) {
 		}
 		a.HWType, a.ProtoType = r.U16("htype"), r.U16("ptype")
 		a.HWLength, a.ProtoLength = r.U8("hlen"), r.U8("plen")
-		a.HWSrc = net.HardwareAddr(append([]byte(nil), r.Bytes("sha")...))
-		a.IPSrc = net.IP(append([]byte(nil), r.Bytes("spa")...))
-		a.HWDst = net.HardwareAddr(append([]byte(nil), r.Bytes("tha")...))
-		a.IPDst = net.IP(append([]byte(nil), r.Bytes("tpa")...))
+		a.HWSrc = net.HardwareAddr(Own(r.Bytes("sha")))
+		a.IPSrc = net.IP(Own(r.Bytes("spa")))
+		a.HWDst = net.HardwareAddr(Own(r.Bytes("tha")))
+		a.IPDst = net.IP(Own(r.Bytes("tpa")))
 		return a, nil
 	case "ipv4":
 		i := protocol.NewIPv4()
@@ -77,10 +77,10 @@ func BuildPacket(r *rec.Rec) (util.Message, error) {
 		i.Length, i.Id = r.U16("length"), r.U16("id")
 		i.Flags, i.FragmentOffset = r.U16("flags"), r.U16("frag_off")
 		i.TTL, i.Protocol, i.Checksum = r.U8("ttl"), r.U8("protocol"), r.U16("checksum")
-		i.NWSrc = net.IP(append([]byte(nil), r.Bytes("src")...))
-		i.NWDst = net.IP(append([]byte(nil), r.Bytes("dst")...))
+		i.NWSrc = net.IP(Own(r.Bytes("src")))
+		i.NWDst = net.IP(Own(r.Bytes("dst")))
 		if o := r.Bytes("options"); len(o) > 0 {
-			i.Options = *util.NewBuffer(append([]byte(nil), o...))
+			i.Options = *util.NewBuffer(Own(o))
 		}
 		p, err := pktPayload(r)
 		if err != nil {
@@ -94,8 +94,8 @@ func BuildPacket(r *rec.Rec) (util.Message, error) {
 		i := &protocol.IPv6{}
 		i.Version, i.TrafficClass, i.FlowLabel = r.U8("version"), r.U8("tclass"), r.U32("flow_label")
 		i.Length, i.NextHeader, i.HopLimit = r.U16("length"), r.U8("next_header"), r.U8("hop_limit")
-		i.NWSrc = net.IP(append([]byte(nil), r.Bytes("src")...))
-		i.NWDst = net.IP(append([]byte(nil), r.Bytes("dst")...))
+		i.NWSrc = net.IP(Own(r.Bytes("src")))
+		i.NWDst = net.IP(Own(r.Bytes("dst")))
 		for _, e := range r.List("ext") {
 			m, err := BuildPacket(e)
 			if err != nil {
@@ -124,16 +124,16 @@ func BuildPacket(r *rec.Rec) (util.Message, error) {
 		h.NextHeader, h.HEL = r.U8("next_header"), r.U8("hel")
 		for _, o := range r.List("options") {
 			d := o.Bytes("data")
-			h.Options = append(h.Options, &protocol.Option{Type: o.U8("type"), Length: uint8(len(d)), Data: append([]byte(nil), d...)})
+			h.Options = append(h.Options, &protocol.Option{Type: o.U8("type"), Length: uint8(len(d)), Data: Own(d)})
 		}
 		return h, nil
 	case "ip6opt":
 		d := r.Bytes("data")
-		return &protocol.Option{Type: r.U8("type"), Length: uint8(len(d)), Data: append([]byte(nil), d...)}, nil
+		return &protocol.Option{Type: r.U8("type"), Length: uint8(len(d)), Data: Own(d)}, nil
 	case "routing":
 		h := protocol.NewRoutingHeader()
 		h.NextHeader, h.HEL, h.RoutingType, h.SegmentsLeft = r.U8("next_header"), r.U8("hel"), r.U8("type"), r.U8("segments_left")
-		h.Data = util.NewBuffer(append([]byte(nil), r.Bytes("data")...))
+		h.Data = util.NewBuffer(Own(r.Bytes("data")))
 		return h, nil
 	case "fragment":
 		h := protocol.NewFragmentHeader()
@@ -142,22 +142,22 @@ func BuildPacket(r *rec.Rec) (util.Message, error) {
 	case "icmp":
 		i := protocol.NewICMP()
 		i.Type, i.Code, i.Checksum = r.U8("type"), r.U8("code"), r.U16("checksum")
-		i.Data = append([]byte(nil), r.Bytes("data")...)
+		i.Data = Own(r.Bytes("data"))
 		return i, nil
 	case "udp":
 		u := protocol.NewUDP()
 		u.PortSrc, u.PortDst, u.Length, u.Checksum = r.U16("sport"), r.U16("dport"), r.U16("length"), r.U16("checksum")
-		u.Data = append([]byte(nil), r.Bytes("data")...)
+		u.Data = Own(r.Bytes("data"))
 		return u, nil
 	case "tcp":
 		t := protocol.NewTCP()
 		t.PortSrc, t.PortDst, t.SeqNum, t.AckNum = r.U16("sport"), r.U16("dport"), r.U32("seq"), r.U32("ack")
 		t.HdrLen, t.Code = r.U8("data_off"), r.U8("flags")
 		t.WinSize, t.Checksum, t.UrgFlag = r.U16("window"), r.U16("checksum"), r.U16("urgent")
-		t.Data = append([]byte(nil), r.Bytes("data")...)
+		t.Data = Own(r.Bytes("data"))
 		return t, nil
 	case "igmp12":
-		g := net.IP(append([]byte(nil), r.Bytes("group")...))
+		g := net.IP(Own(r.Bytes("group")))
 		var m *protocol.IGMPv1or2
 		switch r.U8("type") {
 		case protocol.IGMPv1Report:
@@ -172,12 +172,12 @@ func BuildPacket(r *rec.Rec) (util.Message, error) {
 		m.Type, m.MaxResponseTime, m.Checksum = r.U8("type"), r.U8("max_resp"), r.U16("checksum")
 		return m, nil
 	case "igmp3_query":
-		q := protocol.NewIGMPv3Query(net.IP(append([]byte(nil), r.Bytes("group")...)), r.U8("max_resp"), r.U8("qqic"), ips(r.Bytes("sources")))
+		q := protocol.NewIGMPv3Query(net.IP(Own(r.Bytes("group"))), r.U8("max_resp"), r.U8("qqic"), ips(r.Bytes("sources")))
 		q.Type, q.Checksum = r.U8("type"), r.U16("checksum")
 		q.SuppressRouterProcessing, q.RobustnessValue = r.Bool("s"), r.U8("qrv")
 		return q, nil
 	case "igmp3_record":
-		g := protocol.NewGroupRecord(r.U8("type"), net.IP(append([]byte(nil), r.Bytes("mcast")...)), ips(r.Bytes("sources")))
+		g := protocol.NewGroupRecord(r.U8("type"), net.IP(Own(r.Bytes("mcast"))), ips(r.Bytes("sources")))
 		aux := r.Bytes("aux")
 		g.AuxDataLen = uint8(len(aux) / 4)
 		for i := 0; i+4 <= len(aux); i += 4 {
@@ -204,7 +204,7 @@ func BuildPacket(r *rec.Rec) (util.Message, error) {
 func BuildDHCP(r *rec.Rec) (*protocol.DHCP, error) {
 	var d *protocol.DHCP
 	var err error
-	hw := net.HardwareAddr(append([]byte(nil), r.Bytes("chaddr")...))
+	hw := net.HardwareAddr(Own(r.Bytes("chaddr")))
 	// through each message constructor (they differ in the options they pre-fill, which the recipe then replaces)
 	switch r.U32("xid") % 7 {
 	case 1:
@@ -226,19 +226,19 @@ func BuildDHCP(r *rec.Rec) (*protocol.DHCP, error) {
 	d.Operation, d.HardwareType, d.Options = protocol.DHCPOperation(r.U8("op")), r.U8("htype"), nil
 	d.HardwareLen, d.HardwareOpts = r.U8("hlen"), r.U8("hops")
 	d.Secs, d.Flags = r.U16("secs"), r.U16("flags")
-	d.ClientIP = net.IP(append([]byte(nil), r.Bytes("ciaddr")...))
-	d.YourIP = net.IP(append([]byte(nil), r.Bytes("yiaddr")...))
-	d.ServerIP = net.IP(append([]byte(nil), r.Bytes("siaddr")...))
-	d.GatewayIP = net.IP(append([]byte(nil), r.Bytes("giaddr")...))
+	d.ClientIP = net.IP(Own(r.Bytes("ciaddr")))
+	d.YourIP = net.IP(Own(r.Bytes("yiaddr")))
+	d.ServerIP = net.IP(Own(r.Bytes("siaddr")))
+	d.GatewayIP = net.IP(Own(r.Bytes("giaddr")))
 	ch := r.Bytes("chaddr")
 	if int(d.HardwareLen) <= len(ch) {
 		ch = ch[:d.HardwareLen]
 	}
-	d.ClientHWAddr = net.HardwareAddr(append([]byte(nil), ch...))
+	d.ClientHWAddr = net.HardwareAddr(Own(ch))
 	copy(d.ServerName[:], r.Bytes("sname"))
 	copy(d.File[:], r.Bytes("file"))
 	for i, o := range r.List("options") {
-		data := append([]byte(nil), o.Bytes("data")...)
+		data := Own(o.Bytes("data"))
 		var opt protocol.DHCPOption
 		// the same option through each of the option constructors the library offers
 		switch {
@@ -262,8 +262,8 @@ func BuildDHCP(r *rec.Rec) (*protocol.DHCP, error) {
 func BuildLLDP(r *rec.Rec) *protocol.LLDP {
 	l := &protocol.LLDP{}
 	c, p, t := r.Sub("chassis"), r.Sub("port"), r.Sub("ttl")
-	l.Chassis = protocol.ChassisTLV{Type: 1, Length: uint16(1 + len(c.Bytes("id"))), Subtype: c.U8("subtype"), Data: append([]byte(nil), c.Bytes("id")...)}
-	l.Port = protocol.PortTLV{Type: 2, Length: uint16(1 + len(p.Bytes("id"))), Subtype: p.U8("subtype"), Data: append([]byte(nil), p.Bytes("id")...)}
+	l.Chassis = protocol.ChassisTLV{Type: 1, Length: uint16(1 + len(c.Bytes("id"))), Subtype: c.U8("subtype"), Data: Own(c.Bytes("id"))}
+	l.Port = protocol.PortTLV{Type: 2, Length: uint16(1 + len(p.Bytes("id"))), Subtype: p.U8("subtype"), Data: Own(p.Bytes("id"))}
 	l.TTL = protocol.TTLTLV{Type: 3, Length: 2, Seconds: t.U16("seconds")}
 	return l
 }
